@@ -53,7 +53,8 @@ Definition step_ok (K : lkeys) (cur : sset) (st : step) : bool * sset :=
        end
        && match o with
           | OAggregate => agg_oracle (rws cur) (rws post)
-                          && list_eqb row_eqb (aggregate_np (rev (distinct_firsts (rws cur) 0 [])) (rws cur)) (rws post)
+                          && list_eqb row_eqb (aggregate_np (rws cur)) (rws post)
+                          && list_eqb row_eqb (unsort_accumulate (rev (np_unique_rows (rws cur))) (rws cur)) (rws post)
           | _ => true
           end, post)
   end.
